@@ -169,6 +169,7 @@ type run struct {
 	blocks map[string]*types.Block // proposer/variant/empty -> block
 	hashID map[common.Uint256]int
 	sigID  map[string]int
+	cause  map[string]string // evidence item -> "" (valid) or the reason it is not (classify.go)
 }
 
 func (r *run) block(proposer uint32, variant int, empty bool) *types.Block {
@@ -347,6 +348,23 @@ type outcome struct {
 	Done  bool
 }
 
+type pendingEv struct {
+	idx   uint32
+	empty bool
+	sig   []byte
+	own   bool // the message's own signature (status decided once the receive verdict is known)
+	valid bool
+	cause string
+}
+
+type shortQuorum struct {
+	P      uint32
+	Empty  bool
+	Have   int
+	Class  string
+	Detail map[string]interface{}
+}
+
 type unsignedHit struct {
 	Index int    `json:"op_index"`
 	Kind  string `json:"kind"`
@@ -383,6 +401,7 @@ type observed struct {
 	Unverif  bool
 	Double   bool
 	FirstBad string // kind of the first passing message that is not verified
+	Short    []shortQuorum // declared proposers without a verifiable quorum, classified by cause
 	Stripped []string      // stage at which each proposal without a header signature list stopped
 	Unsigned []unsignedHit // messages that reached the pool although their own signature does not verify
 	Rejected int           // messages dropped although their own signature verifies
@@ -390,7 +409,7 @@ type observed struct {
 }
 
 func newRun(w *world, h *Hist) (*run, error) {
-	r := &run{w: w, h: h, pos: map[uint32]int{}, blocks: map[string]*types.Block{}, hashID: map[common.Uint256]int{}, sigID: map[string]int{}}
+	r := &run{w: w, h: h, pos: map[uint32]int{}, blocks: map[string]*types.Block{}, hashID: map[common.Uint256]int{}, sigID: map[string]int{}, cause: map[string]string{}}
 	if len(h.Peers) > maxPeers {
 		return nil, fmt.Errorf("too many peers")
 	}
@@ -429,6 +448,7 @@ func (r *run) execute() (*observed, error) {
 		m := mOp{Kind: op.Kind, Sender: op.Sender, Claimed: op.Claimed, Proposer: op.Proposer, ForEmpty: op.ForEmpty}
 		verified := true
 		double := false
+		var pending []pendingEv // evidence items this message carries
 		own := false // ground truth: the message's own mandatory signature verifies under the sender's key
 		switch op.Kind {
 		case "proposal":
@@ -459,6 +479,7 @@ func (r *run) execute() (*observed, error) {
 			own = op.StripSig == 0 && r.ownSigOK(op.Proposer, blk.Hash(), bsig) && r.ownSigOK(op.Proposer, eblk.Hash(), esig)
 			m.SigID = r.idOfSig(bsig)
 			m.Valid = r.validFor(op.Proposer, op.Proposer, false, bsig)
+			pending = append(pending, pendingEv{idx: op.Proposer, sig: bsig, own: true, valid: m.Valid})
 			verified = m.Valid && inPeers(op.Proposer)
 		case "endorse":
 			h := r.pick(op.MsgHash, op.Proposer, op.ForEmpty)
@@ -474,6 +495,7 @@ func (r *run) execute() (*observed, error) {
 			own = r.ownSigOK(op.Sender, h, sg)
 			m.HashID = r.idOfHash(h)
 			m.Valid = r.validFor(op.Claimed, op.Proposer, op.ForEmpty, sg)
+			pending = append(pending, pendingEv{idx: op.Claimed, empty: op.ForEmpty, sig: sg, own: true, valid: m.Valid})
 			verified = m.Valid && inPeers(op.Claimed) && inPeers(op.Proposer)
 		case "commit":
 			h := r.pick(op.MsgHash, op.Proposer, op.ForEmpty)
@@ -489,6 +511,14 @@ func (r *run) execute() (*observed, error) {
 				es[e.Idx] = b
 				v := r.validFor(e.Idx, op.Proposer, op.ForEmpty, b)
 				m.Ends = append(m.Ends, mEntry{e.Idx, v})
+				ec := ""
+				if !v {
+					ec = "commit-msg-endorser-sigs"
+					if !inPeers(op.Proposer) {
+						ec = "commit-msg-proposer-not-a-peer"
+					}
+				}
+				pending = append(pending, pendingEv{idx: e.Idx, empty: op.ForEmpty, sig: b, cause: ec})
 				verified = verified && v && inPeers(e.Idx)
 				if e.Idx == op.Proposer {
 					double = true
@@ -505,6 +535,7 @@ func (r *run) execute() (*observed, error) {
 			own = r.ownSigOK(op.Sender, h, sg)
 			m.HashID = r.idOfHash(h)
 			m.Valid = r.validFor(op.Claimed, op.Proposer, op.ForEmpty, sg)
+			pending = append(pending, pendingEv{idx: op.Claimed, empty: op.ForEmpty, sig: sg, own: true, valid: m.Valid})
 			verified = verified && m.Valid && inPeers(op.Claimed) && inPeers(op.Proposer)
 			if op.Claimed == op.Proposer {
 				double = true
@@ -541,6 +572,26 @@ func (r *run) execute() (*observed, error) {
 		}
 		// The case records the ground truth, not msg.Verify's verdict: the model predicts the drop.
 		m.OK = own
+		if passed {
+			for _, ev := range pending {
+				c := ev.cause
+				if ev.own { // the message's own signature: status depends on the receive verdict's ground truth
+					if ev.valid {
+						c = ""
+					} else if op.Kind == "proposal" {
+						c = causeUnclassified
+						if !own {
+							c = causeUnsigned
+						} else if op.Variant != 0 {
+							c = "proposal-second-block"
+						}
+					} else {
+						c = r.msgCause(op, own, op.Kind)
+					}
+				}
+				r.register(ev.idx, op.Proposer, ev.empty, ev.sig, c)
+			}
+		}
 		if passed && !own {
 			// ORACLE (receive gate): a message whose own signature does not verify reached the pool.
 			o.Unsigned = append(o.Unsigned, unsignedHit{Index: len(o.Ops), Kind: op.Kind, Sig: sigKindName(op.Sig), Stage: stage})
@@ -649,6 +700,10 @@ func (r *run) execute() (*observed, error) {
 			}
 		}
 		o.Signers[oc.P] = n
+		if q := int(r.h.N) - (int(r.h.N)-1)/3; n < q {
+			cl, det := r.classifyShort(oc.P, n, q, commits, esigs)
+			o.Short = append(o.Short, shortQuorum{oc.P, oc.Empty, n, cl, det})
+		}
 	}
 	return o, nil
 }
